@@ -14,6 +14,9 @@ import (
 	"math"
 	"math/big"
 	"math/rand"
+	"os"
+	"path/filepath"
+	"regexp"
 	"sort"
 	"strconv"
 	"strings"
@@ -32,6 +35,10 @@ import (
 // more tokens than this are not drained: observation TOOMANY (the Lean driver accepts that only when the profile
 // really holds more; see Drv/C01.lean capTokens)
 const capTokens = 3_000_000
+
+// big=1 cases (a handful per run) are drained up to this many tokens: operation indices beyond 2^24, where an index kept
+// in a float32 or a 32-bit intermediate would first go wrong
+const capTokensBig = 50_000_000
 
 func ratOf(f float64) string {
 	r := new(big.Rat)
@@ -236,6 +243,88 @@ func c01Exhaustive() []string {
 	return out
 }
 
+// ---------------------------------------------------------------- the documented examples (docs/*/load-profile.md)
+
+var c01DocBlock = regexp.MustCompile("(?s)```yaml\n(.*?)```")
+
+// c01DocSection returns the `rps` section of the n-th yaml block of docs/<lang>/load-profile.md in the tree under test
+func c01DocSection(ref string) (root map[string]interface{}, sec map[string]interface{}, ok bool) {
+	lang, num, _ := strings.Cut(ref, ":")
+	n, err := strconv.Atoi(num)
+	if err != nil || strings.ContainsAny(lang, "/.") {
+		return nil, nil, false
+	}
+	b, err := os.ReadFile(filepath.Join(drv.RepoDir, "docs", lang, "load-profile.md"))
+	if err != nil {
+		return nil, nil, false
+	}
+	blocks := c01DocBlock.FindAllStringSubmatch(string(b), -1)
+	if n < 0 || n >= len(blocks) {
+		return nil, nil, false
+	}
+	var raw map[string]interface{}
+	if yaml.Unmarshal([]byte(blocks[n][1]), &raw) != nil {
+		return nil, nil, false
+	}
+	root, _ = c01StrKeys(raw).(map[string]interface{})
+	sec, _ = root["rps"].(map[string]interface{})
+	return root, sec, sec != nil
+}
+
+// one case per documented const/line/step/once example: the input line carries the numbers the example states (so the
+// Spec judges the schedule like any other), `doc=<lang>:<n>` makes the driver decode the DOCUMENTED TEXT itself
+func c01DocCases() []string {
+	var out []string
+	num := func(v interface{}) (float64, bool) {
+		switch x := v.(type) {
+		case int:
+			return float64(x), true
+		case float64:
+			return x, true
+		}
+		return 0, false
+	}
+	for _, lang := range []string{"eng", "rus"} {
+		for n := 0; n < 40; n++ {
+			ref := fmt.Sprintf("%s:%d", lang, n)
+			_, sec, ok := c01DocSection(ref)
+			if !ok {
+				continue
+			}
+			kind, _ := sec["type"].(string)
+			var d int64
+			if ds, ok := sec["duration"].(string); ok {
+				pd, err := time.ParseDuration(ds)
+				if err != nil {
+					continue
+				}
+				d = int64(pd)
+			}
+			f, okF := num(sec["from"])
+			t, okT := num(sec["to"])
+			switch kind {
+			case "const":
+				if ops, ok := num(sec["ops"]); ok {
+					out = append(out, constIn(ops, d)+" doc="+ref)
+				}
+			case "line":
+				if okF && okT {
+					out = append(out, lineIn(f, t, d)+" doc="+ref)
+				}
+			case "step":
+				if st, ok := sec["step"].(int); ok && okF && okT {
+					out = append(out, stepIn(f, t, int64(st), d)+" doc="+ref)
+				}
+			case "once":
+				if tm, ok := sec["times"].(int); ok {
+					out = append(out, fmt.Sprintf("kind=once times=%d doc=%s", tm, ref))
+				}
+			}
+		}
+	}
+	return out
+}
+
 // c01Dims adds the dimensions that are independent of the profile's numbers: how the duration and the numbers are
 // written in the config (dsp, enc), whether the schedule is told its start or takes it at the first Next()
 // (start=implicit; leaf profiles only: the level slots of a step profile are counted from the known start), and whether one
@@ -264,6 +353,7 @@ func c01Gen(r *rand.Rand, tier string) []string {
 		budget = 500000.0
 	}
 	var out []string
+	docCases := c01DocCases()
 	// fixed enumeration: fractional-second lines in both directions (the cea82db defect), flat, const, step
 	for _, d := range []int64{500e6, 1500e6, 2500e6, 1e6, 999999999, 1000000001, 2e9} {
 		for _, ft := range [][2]float64{{0, 10}, {10, 0}, {5, 50}, {100, 1}, {0, 1000}, {3, 3}} {
@@ -281,6 +371,9 @@ func c01Gen(r *rand.Rand, tier string) []string {
 			out = append(out, base+fmt.Sprintf(" conc=%d", 2+i%5))
 		}
 	}
+	out = append(out, docCases...)
+	// operation indices beyond 2^24 (2·10^7 operations each)
+	out = append(out, constIn(20_000_000, 1e9)+" big=1", lineIn(0, 40_000_000, 1e9)+" big=1", constIn(33_554_433, 600_000_000)+" big=1 conc=4")
 	for _, b := range c01Borders(r, nBorder) {
 		if r.Intn(2) == 0 {
 			b = c01Dims(r, b)
@@ -463,6 +556,19 @@ func c01Decode(m map[string]string) (s core.Schedule, ok bool) {
 		}
 		return v
 	}
+	if ref := m["doc"]; ref != "" {
+		root, _, ok := c01DocSection(ref)
+		if !ok {
+			return nil, false
+		}
+		var conf struct {
+			RPS core.Schedule `config:"rps"`
+		}
+		if err := config.DecodeAndValidate(root, &conf); err != nil || conf.RPS == nil {
+			return nil, false
+		}
+		return conf.RPS, true
+	}
 	enc := m["enc"]
 	type kvT struct {
 		k string
@@ -570,11 +676,20 @@ func c01Decode(m map[string]string) (s core.Schedule, ok bool) {
 
 func c01Run(input string) string {
 	m := drv.KV(input)
+	if ref := m["doc"]; ref != "" {
+		if _, _, ok := c01DocSection(ref); !ok {
+			return "NODOC" // replayed against a tree whose documentation has no such example
+		}
+	}
 	s, ok := c01Decode(m)
 	if !ok {
 		return "REJECT"
 	}
 	left0 := s.Left()
+	capN := capTokens
+	if m["big"] == "1" {
+		capN = capTokensBig
+	}
 	t0 := time.Unix(1_700_000_000, 0)
 	if v, ok := m["t0"]; ok {
 		ns, err := strconv.ParseInt(v, 10, 64)
@@ -592,6 +707,9 @@ func c01Run(input string) string {
 		s.Start(t0)
 	}
 	var toks []int64
+	if left0 > 0 && left0 <= capN {
+		toks = make([]int64, 0, left0)
+	}
 	mono := true
 	var fin int64
 	stable := true
@@ -628,7 +746,7 @@ func c01Run(input string) string {
 					if len(r.toks)%4096 == 0 {
 						mu.Lock()
 						total += 4096
-						over := total > capTokens
+						over := total > int64(capN)
 						mu.Unlock()
 						if over {
 							r.over = true
@@ -653,7 +771,7 @@ func c01Run(input string) string {
 			}
 		}
 		sort.Slice(toks, func(i, j int) bool { return toks[i] < toks[j] })
-		if len(toks) > capTokens {
+		if len(toks) > capN {
 			return "TOOMANY"
 		}
 	} else {
@@ -678,7 +796,7 @@ func c01Run(input string) string {
 				mono = false
 			}
 			toks = append(toks, off)
-			if len(toks) > capTokens {
+			if len(toks) > capN {
 				return "TOOMANY"
 			}
 		}
@@ -859,6 +977,6 @@ func main() {
 			"a stream at and beyond the validation border (negative rates, durations < 1 ms, step/times < 1); fixed enumeration of fractional-second lines; " +
 			"independently of the numbers: the duration written as ns / 1m30.5s / decimal seconds / ms / us / minutes, the section as a Go map, with int rates, as YAML text, " +
 			"as a one-element rps list (slice -> composite hook); 6 % of the leaf profiles are never Start()ed (the first Next() is the start), 8 % are drained by 2..8 concurrent consumers; " +
-			"thorough adds the full grid of 11 rates x 11 rates x 11 durations and small step grids. non-trivial = at least one token emitted or a rejected configuration; distinct = distinct input line",
+			"three profiles of 2*10^7 operations (indices beyond 2^24); every const/line/step/once example of docs/{eng,rus}/load-profile.md, decoded from the documented text; thorough adds the full grid of 11 rates x 11 rates x 11 durations and small step grids. non-trivial = at least one token emitted or a rejected configuration; distinct = distinct input line",
 	})
 }
